@@ -30,31 +30,48 @@ CHECK = Check(
     assumptions=[
         "vp_pos, wetbulb_between, deltaT_def: no hypotheses (any temperature, humidity, elevation; wetbulb_between for ANY "
         "enthalpy/pressure/vapour-pressure functions)",
-        "vp_strictMono_ice: −273.16 < T1 < T2 ≤ 0; vp_strictMono_water: 0 < T1 < T2 ≤ 100",
+        "vp_strictMono (= vp_strictMono_ice + vp_strictMono_across + vp_strictMono_water): −273.16 < T1 < T2 ≤ 100, including "
+        "T1 ≤ 0 < T2 (vp_jump_at_zero: the branches do not meet, the water-branch limit at 0⁺ is 1.08e-4 relative ABOVE the ice "
+        "value at 0 — proved by rational enclosures of the transcendental terms, OW/Proofs/ClimateFreezing.lean; the real code "
+        "returns 0.6107161725 at T=0 and 0.6107821758457587 at T=5e-324)",
+        "bisect_bracket_invariant: the level is bracketed on entry (f rtb < h ≤ f (rtb+dx)); ANY f, any sign of dx, no continuity",
+        "bisect_converges / wetbulb_converges: additionally f continuous on the initial bracket (Mathlib IVT); "
+        "wetbulb_converges_water / _ice discharge continuity for the real satEnthalpy when dew point and dry bulb are on the same "
+        "side of 0 °C and pa ≠ vp on the bracket; satEnthalpy_strictMono_water: 0 < x1 < x2 ≤ 100 and vp(x2) < pa (crossing unique)",
         "dewpoint_mono_humidity: 0 < RH1 < RH2 and ln(ea2/0.6108) < 17.27 (the Magnus denominator stays positive; true for "
         "every ea < 1.9e7 kPa, i.e. for every meteorological input)",
+        "dew point ≤ dry bulb is NOT assumed anywhere. dewPoint_le_dryBulb_iff (RH > 0, T > −237.3, positive Magnus denominator): "
+        "dew ≤ dry ⇔ GoffGratch(T)·RH/100 ≤ Magnus(T); dewPoint_le_dryBulb_of_magnus: GoffGratch(T) ≤ Magnus(T) ⇒ dew ≤ dry for "
+        "all 0 < RH ≤ 100 (instance proved at T = 0); dewPoint_exceeds_dryBulb_example: 40 < dewPoint 40 100 (proved; real code: "
+        "40.00548757635144)",
     ],
     partial=[
-        "NOT PROVED: vapour pressure monotone ACROSS the freezing point (vp_ice(0) < vp_water(0+) has a margin of 5e-5 in log10 "
-        "and needs verified interval arithmetic on transcendental constants) — checked on dense float grids by the oracle only",
-        "NOT PROVED: convergence of the bisection to the enthalpy match (only the bracket invariant is proved)",
+        "wet-bulb convergence is per side of 0 °C: the searched function jumps at 0 °C (vp_jump_at_zero), so when the bracket "
+        "[dew, dry] straddles 0 °C only bisect_bracket_invariant (sign change located within 1e-4 °C, no continuity) applies; "
+        "that the enthalpy level is bracketed on entry (satEnthalpy(dew) < hE ≤ satEnthalpy(dry)) is a hypothesis, not derived "
+        "from the humidity (it mixes Magnus and Goff-Gratch)",
         "NOT PROVED: finiteness of the IEEE results (ℝ has no non-finite values) — checked by the oracle on the real code",
         "RECORDED, not raised: for RH = 100 % and T ≳ 31 °C the Magnus dew point exceeds the dry bulb by ≤ 0.006 °C, so "
-        "deltaT is slightly negative; `between` holds in the order-free sense that is proved",
+        "deltaT is slightly negative (now a theorem at T = 40: dewPoint_exceeds_dryBulb_example); `between` holds in the "
+        "order-free sense that is proved",
     ],
 )
 
 META = dict(
     category="proof",
     text="Lean 4 theorems over a hand-written model of climate_variables.go at exact real arithmetic: vapour pressure positive "
-         "(both Goff-Gratch branches), strictly increasing on each branch, wet bulb between dew point and dry bulb for ANY "
-         "searched function (bracket invariant of the bisection, by induction on the iteration count), deltaT = dry − wet, dew "
-         "point increasing in humidity; kernel-checked. The model is tied to the code on every run by comparing the real "
+         "(both Goff-Gratch branches), strictly increasing on (−273.16, 100] INCLUDING across 0 °C (verified rational enclosures of "
+         "the transcendental constants; the branches leave an upward jump at 0 °C), wet bulb between dew point and dry bulb for ANY "
+         "searched function (bracket invariant of the bisection, by induction on the iteration count), convergence of the bisection "
+         "to a level crossing within 1e-4 °C (sign invariant for any f; intermediate value theorem for continuous f, continuity "
+         "discharged for the real enthalpy function on each side of 0 °C), deltaT = dry − wet, dew point increasing in humidity, "
+         "dew ≤ dry characterised exactly (Goff-Gratch·RH ≤ Magnus) with a proved counter-example at 40 °C / 100 %; kernel-checked. The model is tied to the code on every run by comparing the real "
          "ClimateVariables run with the compiled model (rtol 1e-9), and the property's predicates are evaluated on the real "
          "outputs over grids and random samples of T∈[-40,55], RH∈(0,100], elevation∈[0,10000].",
     design_ref="DESIGN.md §6 C20",
     note="Trusted: Lean kernel + propext/Classical.choice/Quot.sound; hand-written model tied by correspondence; theorems at ℝ. "
-         "Not proved: monotonicity across 0 °C, bisection convergence, IEEE finiteness (all three sampled by the oracle).",
-    technique="Lean 4 proof (induction on bisection steps; rpow/log monotonicity) + differential correspondence model vs real code",
+         "Not proved: IEEE finiteness (sampled by the oracle); bisection convergence across a bracket that straddles 0 °C holds only as the "
+         "sign-change statement (the searched function jumps there).",
+    technique="Lean 4 proof (induction on bisection steps; rpow/log monotonicity; rational enclosures by exact integer powers; IVT) + differential correspondence model vs real code",
 )
 READY = True
